@@ -17,6 +17,14 @@ def run(tier, seed):
                          {"sched_scenario": "c10_send_with_fast_peer", "schedule": sched})
         if r["exits"]:
             ck.note("thread exits in a schedule scenario (judged by C14): %r" % (r["exits"][:2],))
+    # ---- an answer that arrives after more than the library's largest table bound (10240) of other requests were routed ----
+    nb = 70000 if tier == "thorough" else 10500
+    h = schedscen.c10_answer_after_many_other_requests(nb)
+    v = nt.mon_batch(h["params"], [h["steps"]], "c10_many")[0].get("C10", [])
+    for x in v:
+        ck.violation(x["sig"] + ":after_many_requests", "a sender's answer arriving after %d other requests were routed: %s" % (
+            nb, [nc.brief(e) for st in h["steps"][-2:] for e in st["out"]]), {"many": nb})
+    ck.cov["requests_routed_between_request_and_answer"] = nb
     ck.cov["schedules_explored"] = n
     ck.cov["schedule_preemption_bound"] = P
     ck.cov["schedule_distinct_outcomes"] = len(runs)
@@ -26,6 +34,15 @@ def run(tier, seed):
 def replay(path, seed):
     import json
     body = json.load(open(path))
+    if "many" in (body.get("replay") or {}):
+        from .. import schedscen, nodetrace as nt
+        h = schedscen.c10_answer_after_many_other_requests(body["replay"]["many"])
+        v = nt.mon_batch(h["params"], [h["steps"]], "c10_many_replay")[0].get("C10", [])
+        print("replayed: %s" % v)
+        if v:
+            print("VIOLATION property=C10 replay=%s" % path)
+            return 1
+        return 0
     if "sched_scenario" in (body.get("replay") or {}):
         from .. import schedscen, explore, nodetrace as nt
         rp = body["replay"]
